@@ -5,5 +5,5 @@ D=$(mktemp -d /tmp/mutXXXXXX)
 rsync -a --exclude .git --exclude __pycache__ /repo/ "$D/"
 sed -i "$E" "$D/$F"
 if cmp -s "$D/$F" "/repo/$F"; then echo "SED DID NOT CHANGE ANYTHING"; rm -rf "$D"; exit 9; fi
-VERIF_REPO="$D" /verif/check "$@" 2>&1 | grep -v "WARNING conda"
+VERIF_NO_EVIDENCE=1 VERIF_REPO="$D" /verif/check "$@" 2>&1 | grep -v "WARNING conda"
 rm -rf "$D"
